@@ -198,6 +198,7 @@ let handle (p : string) : string =
       | '2' -> ()
       | 'N' -> ()   (* one-channel mode: the channel has no service *)
       | 'E' -> ()
+      | 'B' -> ()   (* big mode of the harness: nothing changes for the model *)
       | 'X' -> ()   (* the script carries a header announcing more than 1 MB: see oversize_accepted *)
       | 'A' -> async := true
       | 'T' ->
@@ -280,4 +281,12 @@ let handle (p : string) : string =
   Buffer.add_string out (Printf.sprintf "hazard=%s;class=%s:%s" hz !tag (fin a));
   Buffer.contents out
 
-let () = vh_run handle
+(* messages of about 1 MB are lists of a million elements and the extracted list functions are not
+   tail recursive: run with a big stack (re-executes itself once under a raised limit) *)
+let () =
+  if Sys.getenv_opt "C09_BIGSTACK" = None && Array.length Sys.argv > 1 then begin
+    let cmd = Printf.sprintf
+        "ulimit -s unlimited 2>/dev/null || ulimit -s 4000000 2>/dev/null; C09_BIGSTACK=1 exec %s %s"
+        (Filename.quote Sys.executable_name) (Filename.quote Sys.argv.(1)) in
+    exit (Sys.command cmd)
+  end else vh_run handle
